@@ -15,6 +15,7 @@ inductive Fault
   | slice (site : Nat)        -- `&x[a..b]` with a > b or b > len
   | divZero (site : Nat)      -- integer `/` or `%` by zero
   | unwrapNone (site : Nat)   -- `unwrap`/`expect` on `None` / `unwrap_err` on `Ok`
+  | overflow (site : Nat)     -- unsigned `-` below zero / `+` past the type's maximum (checked builds)
   | entryMissing              -- lib.rs:557 "entry not present" error path
   | sigPayloadNone            -- lib.rs:332
   | aliasMissing              -- entity.rs:197 expect on the alias table
